@@ -1,7 +1,10 @@
 import CedarVerif.Lemmas.LevelSound
 import CedarVerif.Lemmas.LevelBridge
+import CedarVerif.Lemmas.LevelFaithful
 import CedarVerif.Lemmas.TypecheckDefs
+import CedarVerif.Lemmas.TypecheckPolicy
 import CedarVerif.Thm.C01
+import CedarVerif.Thm.C11
 /-
 C16 — level validation guarantees that the level-n slice of the store suffices; raising n never rejects.
 
@@ -193,15 +196,144 @@ theorem level_sound_fragment (n : Nat) (m : ValidationMode) (s : Schema) (env : 
   rw [erase_annotate m s env [] e te hf ha] at h
   exact h
 
-/-- FULL STATEMENT of C16's soundness half.  For a resolved schema, a policy set every member of which is accepted by
-the (strict) typechecker model and by the level checker at maximum level `n` in every request environment, a request
-and a store that conform to the schema: authorization over the level-`n` slice equals authorization over the store. -/
+/-! ### `Kinds` and `Faithful` DERIVED from typechecker soundness (C03 `soundM`: every construct) -/
+
+/-- For a condition that the typechecker model does not reject in the environment `env` of a request, in a world that
+satisfies the C03 premises (conformant request and store, action entities present, slots bound), and whose typed AST raises
+no level error at `n`: the typed AST exists (`annotate_total`), is level-accepted, evaluates like the condition over the
+store AND over the level-`n` slice (`Faithful` twice), and its kind annotations agree with the values (`Kinds`).
+Both modes (`InFragmentM`: strict — every construct). -/
+theorem levelOk_env (n : Nat) (m : ValidationMode) (s : Schema) (env : RequestEnv) (w : World)
+    (hWF : C03.SchemaWF2 s) (henv : EnvMatches s env w.q) (hreq : ConformsRequest s w.q) (hst : StoreConforms s w.es)
+    (hact : C03.ActionsPresent s w.es) (hsl : C03.SlotsMatch env w.sl)
+    (cond : Expr) (hf : C03.InFragmentM m env cond = true) (v : Verdict) (hv : checkEnv m s env cond = some v)
+    (hne : v ≠ .fail) (hl : levelEnv n m s env cond = some []) :
+    ∃ te, annotate m s env cond [] = .ok te ∧ checkLevel n env.action te = true ∧ Faithful w.q w.es w.sl cond te ∧
+      Faithful w.q (atLevel n w.q w.es) w.sl cond te ∧ Kinds w.q w.es w.sl te := by
+  unfold checkEnv at hv
+  unfold levelEnv at hl
+  cases hE : expectOneOf (typeOf m s env cond []) [boolT] with
+  | error err =>
+    rw [hE] at hv
+    cases err <;> simp at hv
+    exact (hne hv.symm).elim
+  | ok p =>
+    rw [hE] at hl; simp only at hl
+    obtain ⟨te, hte⟩ := annotate_total cond [] p (ok_of_expect hE)
+    rw [hte] at hl
+    simp only [Option.some.injEq] at hl
+    have r := annot_res (n := n) hWF henv ⟨hreq, hst, hsl, hact⟩ cond hf [] te hte (capsHold_nil w)
+    exact ⟨te, hte, by simp [checkLevel, hl], r.faithful, r.slice (Or.inl hl), r.kinds⟩
+
+/-- C16 (`level_sound`, one request environment, NO semantic hypothesis): a condition accepted by the typechecker model
+(verdict other than `fail`) and by the level checker at `n` in the environment of a conformant request evaluates over the
+level-`n` slice exactly as over the store — same value or same error.  Every construct in strict mode. -/
+theorem level_sound_env (n : Nat) (m : ValidationMode) (s : Schema) (env : RequestEnv) (w : World)
+    (hWF : C03.SchemaWF2 s) (henv : EnvMatches s env w.q) (hreq : ConformsRequest s w.q) (hst : StoreConforms s w.es)
+    (hact : C03.ActionsPresent s w.es) (hsl : C03.SlotsMatch env w.sl)
+    (cond : Expr) (hf : C03.InFragmentM m env cond = true) (v : Verdict) (hv : checkEnv m s env cond = some v)
+    (hne : v ≠ .fail) (hl : levelEnv n m s env cond = some []) :
+    evaluate w.q (atLevel n w.q w.es) w.sl cond = evaluate w.q w.es w.sl cond := by
+  obtain ⟨te, _, hc, f1, f2, hk⟩ := levelOk_env n m s env w hWF henv hreq hst hact hsl cond hf v hv hne hl
+  unfold Faithful at f1 f2
+  rw [← f1, ← f2]
+  exact level_sound_partial w.q w.es w.sl n env.action henv.2.1.symm te hk hc
+
+/-- every environment that `levelPolicy` lists raised no level error -/
+theorem levelPolicy_mem {n : Nat} {m : ValidationMode} {s : Schema} {pu ru : SlotUse} {cond : Expr}
+    (h : levelPolicy n m s pu ru cond = some []) {env : RequestEnv} (hmem : env ∈ s.envs pu ru) :
+    levelEnv n m s env cond = some [] := by
+  unfold levelPolicy at h
+  cases hm : (s.envs pu ru).mapM (fun env => levelEnv n m s env cond) with
+  | none => simp [hm] at h
+  | some rs =>
+    simp only [hm, Option.map_some, Option.some.injEq] at h
+    obtain ⟨y, hy, hyr⟩ := C03.option_mapM_mem hm env hmem
+    rw [hy, List.flatten_eq_nil_iff.mp h y hyr]
+
+/-- POLICY LEVEL (policies and linked templates): acceptance by the strict typechecker model and by `levelPolicy n` in all
+request environments ⇒ `LevelOk` in every world whose request environment is one of them. -/
+theorem levelOk_policy (n : Nat) (s : Schema) (pu ru : SlotUse) (p : Policy) (vs : List (RequestEnv × Verdict))
+    (req : Request) (es : Entities) (env : RequestEnv)
+    (hWF : C03.SchemaWF2 s) (hmem : env ∈ s.envs pu ru) (henv : EnvMatches s env req) (hreq : ConformsRequest s req)
+    (hst : StoreConforms s es) (hact : C03.ActionsPresent s es) (hsl : C03.SlotsMatch env p.env)
+    (hf : C03.InFragment2 env p.condition = true)
+    (hcp : checkPolicy .strict s pu ru p.condition = some vs) (hacc : accepted vs = true)
+    (hl : levelPolicy n .strict s pu ru p.condition = some []) : LevelOk n req es p := by
+  obtain ⟨v, hv, hvm⟩ := C03.checkPolicy_mem hcp hmem
+  have hne : v ≠ .fail := by
+    have := List.all_eq_true.mp hacc _ hvm
+    simpa using this
+  obtain ⟨te, _, hc, f1, f2, hk⟩ :=
+    levelOk_env n .strict s env ⟨req, es, p.env⟩ hWF henv hreq hst hact hsl p.condition hf v hv hne (levelPolicy_mem hl hmem)
+  have ha : env.action = req.action := henv.2.1
+  exact ⟨te, f1, f2, hk, by rw [← ha]; exact hc⟩
+
+/-- C16 (`level_sound`, policy level, templates included): the condition of a policy accepted by strict validation and by
+level validation at `n` evaluates over the level-`n` slice as over the store, for every conformant request (whose
+environment is among those checked, with the policy's slots bound accordingly) and conformant store. -/
+theorem level_sound_policy (n : Nat) (s : Schema) (pu ru : SlotUse) (p : Policy) (vs : List (RequestEnv × Verdict))
+    (req : Request) (es : Entities) (env : RequestEnv)
+    (hWF : C03.SchemaWF2 s) (hmem : env ∈ s.envs pu ru) (henv : EnvMatches s env req) (hreq : ConformsRequest s req)
+    (hst : StoreConforms s es) (hact : C03.ActionsPresent s es) (hsl : C03.SlotsMatch env p.env)
+    (hf : C03.InFragment2 env p.condition = true)
+    (hcp : checkPolicy .strict s pu ru p.condition = some vs) (hacc : accepted vs = true)
+    (hl : levelPolicy n .strict s pu ru p.condition = some []) :
+    evaluate req (atLevel n req es) p.env p.condition = evaluate req es p.env p.condition ∧
+    p.outcome req (atLevel n req es) = p.outcome req es := by
+  have hok := levelOk_policy n s pu ru p vs req es env hWF hmem henv hreq hst hact hsl hf hcp hacc hl
+  refine ⟨?_, outcome_slice n req es p hok⟩
+  obtain ⟨te, f1, f2, hk, hc⟩ := hok
+  unfold Faithful at f1 f2
+  rw [← f1, ← f2]
+  exact level_sound_partial req es p.env n req.action rfl te hk hc
+
+/-- FULL STATEMENT of C16's soundness half (static policies).  For a resolved schema, a policy set every member of which is
+accepted by the strict typechecker model and by the level checker at maximum level `n` in every request environment, a
+request and a store that conform to the schema: authorization over the level-`n` slice equals authorization over the store.
+Premises added while proving it (all are C03's, Thm/C03.lean): `SchemaWF2` instead of `SchemaWF` (facts true of every
+schema Rust constructs), `ActionsPresent` (the store holds the schema's action entities, as `Entities::from_entities(..,
+schema)` guarantees — without it `action in Action::"g"`, typed `True` from the action hierarchy and therefore dropped from
+an `if`, evaluates to `false` and the un-levelled branch runs: the statement is false), record literals with distinct keys
+(Rust's `ExprKind::Record` is a map) and no slots in a static policy (`SlotsLinked` in every environment). -/
 def level_sound : Prop :=
   ∀ (n : Nat) (s : Schema) (ps : List Policy) (req : Request) (es : Entities),
-    SchemaWF s → ConformsRequest s req → StoreConforms s es →
-    (∀ p ∈ ps, p.env = [] ∧ (∃ vs, checkPolicy .strict s .absent .absent p.condition = some vs ∧ accepted vs = true) ∧
+    C03.SchemaWF2 s → ConformsRequest s req → StoreConforms s es → C03.ActionsPresent s es →
+    (∀ p ∈ ps, p.env = [] ∧ C03.RecordKeysDistinct p.condition = true ∧ (∀ env, C03.SlotsLinked env p.condition = true) ∧
+      (∃ vs, checkPolicy .strict s .absent .absent p.condition = some vs ∧ accepted vs = true) ∧
       levelPolicy n .strict s .absent .absent p.condition = some []) →
     isAuthorized req (atLevel n req es) ps = isAuthorized req es ps
+
+/-- every member of such a policy set is `LevelOk` -/
+theorem levelOk_static (n : Nat) (s : Schema) (p : Policy) (req : Request) (es : Entities)
+    (hWF : C03.SchemaWF2 s) (hreq : ConformsRequest s req) (hst : StoreConforms s es) (hact : C03.ActionsPresent s es)
+    (h : p.env = [] ∧ C03.RecordKeysDistinct p.condition = true ∧ (∀ env, C03.SlotsLinked env p.condition = true) ∧
+      (∃ vs, checkPolicy .strict s .absent .absent p.condition = some vs ∧ accepted vs = true) ∧
+      levelPolicy n .strict s .absent .absent p.condition = some []) : LevelOk n req es p := by
+  obtain ⟨_, hk, hlinked, ⟨vs, hcp, hacc⟩, hl⟩ := h
+  obtain ⟨env, hmem, henv, hp, hr⟩ := C03.conformant_request_env hreq
+  have hsl : C03.SlotsMatch env p.env :=
+    ⟨fun t ht => (by rw [hp] at ht; cases ht), fun t ht => (by rw [hr] at ht; cases ht)⟩
+  exact levelOk_policy n s .absent .absent p vs req es env hWF hmem henv hreq hst hact hsl
+    (C03.inFragment2_of env p.condition hk (hlinked env)) hcp hacc hl
+
+/-- C16: THE FULL STATEMENT `level_sound` IS PROVED — for every strictly valid, level-`n` valid static policy set (all
+constructs), conformant request and store: the authorizer response over the level-`n` slice is the response over the
+store. -/
+theorem level_sound_strict : level_sound := by
+  intro n s ps req es hWF hreq hst hact h
+  exact level_sound_authorization n req es ps (fun p hp => levelOk_static n s p req es hWF hreq hst hact (h p hp))
+
+/-- … spelled out: same decision, same erroring policies, same determining policies -/
+theorem level_sound_strict_sets (n : Nat) (s : Schema) (ps : List Policy) (req : Request) (es : Entities)
+    (hWF : C03.SchemaWF2 s) (hreq : ConformsRequest s req) (hst : StoreConforms s es) (hact : C03.ActionsPresent s es)
+    (h : ∀ p ∈ ps, p.env = [] ∧ C03.RecordKeysDistinct p.condition = true ∧ (∀ env, C03.SlotsLinked env p.condition = true) ∧
+      (∃ vs, checkPolicy .strict s .absent .absent p.condition = some vs ∧ accepted vs = true) ∧
+      levelPolicy n .strict s .absent .absent p.condition = some []) :
+    (isAuthorized req (atLevel n req es) ps).decision = (isAuthorized req es ps).decision ∧
+    (∀ id, (∃ p, p ∈ ps ∧ id = p.id ∧ Errs req (atLevel n req es) p) ↔ (∃ p, p ∈ ps ∧ id = p.id ∧ Errs req es p)) ∧
+    (∀ id, id ∈ (isAuthorized req (atLevel n req es) ps).reasons ↔ id ∈ (isAuthorized req es ps).reasons) :=
+  level_sound_sets n req es ps (fun p hp => levelOk_static n s p req es hWF hreq hst hact (h p hp))
 
 /-! ### non-vacuity -/
 
